@@ -6,7 +6,7 @@
     = projections/moments of the stored grid) is owned by the moments family; here it is
     evaluated on the implementation by the check's oracle. *)
 From Coq Require Import List ZArith QArith Qcanon Bool.
-From Inovesa Require Import Base.FieldKit Model.Records Model.H5Units Proofs.RecordsP Proofs.H5UnitsP Proofs.C10P.
+From Inovesa Require Import Base.FieldKit Model.Records Model.H5Units Gen.Gen_H5Units Proofs.RecordsP Proofs.H5UnitsP Proofs.C10P.
 Import ListNotations.
 Local Open Scope Z_scope.
 
@@ -136,6 +136,22 @@ Theorem C10_unit_volt_watt :
     (a_Watt K c E0 sE H frev Veff fs Ib ohm * a_Meter K c E0 sE H frev Veff fs * frev)%F = (two * ohm * Ib * Ib * c)%F.
 Proof. exact unit_volt_watt_c10. Qed.
 Print Assumptions C10_unit_volt_watt.
+
+(** the attribute expressions the theorems above talk about are the ones in the source *now*:
+    Gen_H5Units.v is regenerated from the HDF5File constructor and the ElectricField initialisers on
+    every run (translate/h5units2coq.py) *)
+Theorem C10_units_match_source :
+  forall (K : Fld) (c E0 sE H frev Veff fs steps Ib deltaE ohm : K),
+    c <> f0 -> E0 <> f0 -> sE <> f0 -> H <> f0 -> frev <> f0 -> Veff <> f0 -> fs <> f0 -> steps <> f0 ->
+    a_Second_z K c E0 sE H frev Veff fs = gen_Second_z K (a_Meter K c E0 sE H frev Veff fs) c /\
+    a_Turn K frev fs = gen_Turn K (t_sync K fs) frev /\
+    a_Hertz K c E0 sE H frev Veff fs = gen_Hertz K (a_Meter K c E0 sE H frev Veff fs) c /\
+    a_Volt K E0 sE frev fs steps deltaE
+      = gen_Volt K deltaE (a_ElectronVolt K E0 sE) (revolutionpart K frev fs steps) /\
+    a_WattPerHertz K frev Ib ohm = gen_WattPerHertz K ohm Ib frev /\
+    a_Watt K c E0 sE H frev Veff fs Ib ohm = gen_Watt K ohm Ib frev (a_Hertz K c E0 sE H frev Veff fs).
+Proof. exact units_match_source_c10. Qed.
+Print Assumptions C10_units_match_source.
 
 (** non-vacuity: a concrete run (outstep 3, SavePhaseSpace 2, 8 steps, with wake) *)
 Example C10_schedule_example :
